@@ -230,8 +230,6 @@ Definition row := list (N * cv).     (* (column id, non-null value) as written b
 Fixpoint row_get (r : row) (c : N) : cv :=
   match r with [] => CNull | (c', v) :: t => if c' =? c then v else row_get t c end.
 
-Definition cv_too_long (v : cv) : bool := match v with CStr s => max_varchar <? len s | _ => false end.
-
 (* generateRowSpecForDocument for the typed fields (+ the VARCHAR(512) limit of encodeRowValue) *)
 Fixpoint gen_row (fs : list field) (doc : jv) : res row :=
   match fs with
@@ -502,8 +500,6 @@ Definition engine_matched (st : state) (q : query) : res (list lrow) :=
   let rm := where_ranges gs in
   let cols := choose_index sch (q_order q) rm in
   let '(lo, hi) := key_bounds cols rm false false in
-  (* EncodeValueAsKey of a range bound: a VARCHAR longer than the column's 512 bytes is rejected *)
-  if existsb cv_too_long (lo ++ hi) then Err EMaxLen else
   let val := col_val0 sch in
   let scanned := filter (fun r => in_range (s_nz sch) (map (val r) cols) lo hi) (live_rows st) in
   let matched := filter (eval_where val gs) scanned in
@@ -656,6 +652,24 @@ Inductive out :=
 | XGet (rev : N) (payload : jv)
 | XAudit (l : list (N * option jv)).
 
+(* CreateIndexStmt: every entry of the index has the key
+     prefix | M. | table id | index id | encoded column values | encoded primary key
+   (VARCHAR/BLOB values padded to the column length), which must fit the store's key length *)
+Definition max_key_len : N := 1024.
+Definition enc_key_len (t : ftype) : N :=
+  match t with
+  | TStr => 1 + max_varchar + 4
+  | TInt | TDbl => 9
+  | TBool => 2
+  | TUuid => 17
+  end.
+Definition id_key_len : N := 1 + 32 + 4.        (* the document id column: BLOB[32] *)
+Definition entry_key_len (sch : schema) (cols : list bytes) : N :=
+  fold_left (fun acc c =>
+               acc + (if bytes_eqb c (s_id sch) then id_key_len
+                      else match find_field sch c with Some f => enc_key_len (f_type f) | None => 0 end))
+            cols (1 + 2 + 4 + 4) + id_key_len.
+
 Definition index_eqb (cols : list bytes) (ix : index) : bool := list_eqb bytes_eqb cols (ix_cols ix).
 
 Fixpoint number_from (n : N) (vs : list version) : list (N * option jv) :=
@@ -712,6 +726,7 @@ Definition step (st : state) (o : op) : state * out :=
           if negb (forallb (col_exists sch) cols) || existsb (index_eqb cols) (s_indexes sch)
              || list_eqb bytes_eqb cols (primary_cols sch)
              || (uniq && match lives (st_docs st) with [] => false | _ => true end)
+             || (max_key_len <? entry_key_len sch cols)
           then (st, XErr)
           else (mkst (mksch (s_id sch) (s_fields sch) (s_indexes sch ++ [mkix cols uniq]) (s_next sch) (s_nz sch))
                      (st_docs st), XOk)
